@@ -271,49 +271,7 @@ func (s *session) batch(parts []*offer, primary int, transport string) {
 	}
 	hookTot0, _, _ := s.mon.totals()
 
-	var status int
-	var respBody []byte
-	var terr error
-	ok := ev.WithTimeout(attemptWatchdog, func() {
-		s.r.Guard(s.site(), s.witness(), func() {
-			body := mkReader(pr.Reader, bodyBytes, errAt, s.rng)
-			ctype := mw.FormDataContentType()
-			switch transport {
-			case "rec-nocl", "rec-cl":
-				req := httptest.NewRequest("POST", "/camli/upload", plainReader{body})
-				req.Header.Set("Content-Type", ctype)
-				req.ContentLength = -1
-				if transport == "rec-cl" {
-					req.ContentLength = int64(len(bodyBytes))
-				}
-				rec := httptest.NewRecorder()
-				s.handler().ServeHTTP(rec, req)
-				status, respBody = rec.Code, rec.Body.Bytes()
-			default:
-				s.ensureServer()
-				req, err := http.NewRequest("POST", s.srv.URL+"/camli/upload", plainReader{body})
-				if err != nil {
-					terr = err
-					return
-				}
-				req.Header.Set("Content-Type", ctype)
-				req.ContentLength = -1
-				if transport == "srv-cl" {
-					req.ContentLength = int64(len(bodyBytes))
-				}
-				st0 := s.started.Load()
-				resp, err := s.srv.Client().Do(req)
-				if err != nil {
-					terr = err
-				} else {
-					respBody, _ = io.ReadAll(resp.Body)
-					resp.Body.Close()
-					status = resp.StatusCode
-				}
-				s.waitIdle(st0, err != nil)
-			}
-		})
-	})
+	status, respBody, terr, ok := s.postMultipart(bodyBytes, mw.FormDataContentType(), pr.Reader, errAt, transport)
 	if !ok {
 		s.r.Inconclusive(fmt.Sprintf("%s: batch request %d (%s) did not return within %v", s.site(), s.n, transport, attemptWatchdog))
 		s.dead = true
@@ -405,6 +363,51 @@ func (s *session) batch(parts []*offer, primary int, transport string) {
 	}
 	s.checkEnumeration("enumerate", s.b.S, anyRejected)
 	s.checkListenersNoExcess()
+}
+
+// postMultipart sends one multipart upload request over the given transport and returns what the
+// client saw.  ok is false when the watchdog ended the wait.
+func (s *session) postMultipart(bodyBytes []byte, ctype, reader string, errAt int, transport string) (status int, respBody []byte, terr error, ok bool) {
+	ok = ev.WithTimeout(attemptWatchdog, func() {
+		s.r.Guard(s.site(), s.witness(), func() {
+			body := mkReader(reader, bodyBytes, errAt, s.rng)
+			switch transport {
+			case "rec-nocl", "rec-cl":
+				req := httptest.NewRequest("POST", "/camli/upload", plainReader{body})
+				req.Header.Set("Content-Type", ctype)
+				req.ContentLength = -1
+				if transport == "rec-cl" {
+					req.ContentLength = int64(len(bodyBytes))
+				}
+				rec := httptest.NewRecorder()
+				s.handler().ServeHTTP(rec, req)
+				status, respBody = rec.Code, rec.Body.Bytes()
+			default:
+				s.ensureServer()
+				req, err := http.NewRequest("POST", s.srv.URL+"/camli/upload", plainReader{body})
+				if err != nil {
+					terr = err
+					return
+				}
+				req.Header.Set("Content-Type", ctype)
+				req.ContentLength = -1
+				if transport == "srv-cl" {
+					req.ContentLength = int64(len(bodyBytes))
+				}
+				st0 := s.started.Load()
+				resp, err := s.srv.Client().Do(req)
+				if err != nil {
+					terr = err
+				} else {
+					respBody, _ = io.ReadAll(resp.Body)
+					resp.Body.Close()
+					status = resp.StatusCode
+				}
+				s.waitIdle(st0, err != nil)
+			}
+		})
+	})
+	return
 }
 
 func (s *session) checkTrueRefAbsent(p *offer) {
